@@ -20,7 +20,7 @@ def content_stream(data, flate=False, extra=None):
     return Stream(d, raw)
 
 
-def build_pdf(objects, root, info=None, form="table", tape=None, pack=None, trailer_extra=None, eol=b"\n", order=None, flate_containers=True, encrypt=None, gens=None, encrypt_skip=()):
+def build_pdf(objects, root, info=None, form="table", tape=None, pack=None, trailer_extra=None, eol=b"\n", order=None, flate_containers=True, encrypt=None, gens=None, encrypt_skip=(), container_hook=None):
     """Serialise {id: value} into a single-revision PDF.
 
     form: 'table' | 'stream' (xref stream; ``pack``: ids to store in one object stream).
@@ -60,6 +60,11 @@ def build_pdf(objects, root, info=None, form="table", tape=None, pack=None, trai
                 raw = zlib.compress(payload)
                 d[b"Filter"] = Name(b"FlateDecode")
             d[b"Length"] = len(raw)
+            if container_hook is not None:
+                import copy
+
+                d = copy.deepcopy(d)
+                container_hook("objstm", d)
             off = fw.add_object(nxt, enc(nxt, 0, Stream(d, raw)))
             entries[nxt] = ("n", off, 0)
             for k, i in enumerate(pack):
@@ -68,7 +73,7 @@ def build_pdf(objects, root, info=None, form="table", tape=None, pack=None, trai
         entries[0] = ("f", 0, 65535)
         trailer[b"Size"] = nxt + 1
         big = max([fw.pos() + 64, nxt] + [e[1] for e in entries.values()])
-        fw.xref_stream(nxt, entries, trailer, widths=(1, max(3, (big.bit_length() + 7) // 8), 2), flt=flate_containers)
+        fw.xref_stream(nxt, entries, trailer, widths=(1, max(3, (big.bit_length() + 7) // 8), 2), flt=flate_containers, dict_hook=container_hook)
     return fw
 
 
